@@ -13,11 +13,14 @@
                | incl (in an included file)
      [k |-> "eoe", on, sp]    exit_on_error <sp>: sp is a spelling of the flag; on = its documented truth value
                               (falsy: "", 0, false, no - case-insensitively; everything else is truthy)
+     [k |-> "seterr"]         set_error se : replaces the last error's message without the on_error flow (the flag, the output
+                              variable and the run are untouched); the line / source it leaves are not documented and are
+                              normalised to 0 / "" by the harness when the message is "se"
      [k |-> "obs"]            e/l/s = get_last_error / _line / _source ; emit e l s o
    Exec folds the items into the list of observations and the outcome. *)
 EXTENDS Naturals, Sequences, TLC, FiniteSets
 Prologue == 4          \* fn ff / o = trigger_error ${1} / end / arr = array 1 2
-Size(it) == CASE it.k = "fail" -> (IF it.ctx \in {"loop", "branch", "loopscript"} THEN 3 ELSE 1) [] it.k = "eoe" -> 1 [] it.k = "obs" -> 4
+Size(it) == CASE it.k = "fail" -> (IF it.ctx \in {"loop", "branch", "loopscript"} THEN 3 ELSE 1) [] it.k = "eoe" -> 1 [] it.k = "seterr" -> 1 [] it.k = "obs" -> 4
 RECURSIVE StartOf(_,_)
 StartOf(items, k) == IF k = 1 THEN Prologue + 1 ELSE StartOf(items, k-1) + Size(items[k-1])
 \* where (file, line) the failing instruction is: "M" = the main script, "I" = the included file
@@ -34,6 +37,7 @@ Run(items, k, st) ==
   IF k > Len(items) THEN [ok |-> TRUE, obs |-> st.obs, msg |-> "", file |-> "", line |-> 0]
   ELSE LET it == items[k] IN
     CASE it.k = "eoe" -> Run(items, k+1, [st EXCEPT !.eoe = it.on])
+      [] it.k = "seterr" -> Run(items, k+1, [st EXCEPT !.last = [msg |-> "se", file |-> "", line |-> 0]])
       [] it.k = "obs" -> Run(items, k+1, [st EXCEPT !.obs = Append(@, [msg |-> st.last.msg, file |-> st.last.file, line |-> st.last.line, o |-> st.o])])
       [] it.k = "fail" ->
            LET at == ErrAt(items, k)  e == [msg |-> it.m, file |-> at.file, line |-> at.line] IN
